@@ -218,6 +218,55 @@ func §gen() ITER[int] GEN[int]{
 	RETNIL
 }GEN
 `+StdEntry, "deleg:in-switch", "deleg:break"),
+		Raw("deleg-argument-reads-parameter-redeclared-after-delegation", `
+func §count(from, n int) ITER[int] GEN[int]{
+	tr.E(from)
+	for i := 0; i < n; i++ {
+		YIELD(from + i)
+	}
+	RETNIL
+}GEN
+func §gen(base int) ITER[int] GENP[int](base int){
+	next := func() ITER[int] { return §count(tr.V(1, base)+1, 2) }
+	YFROM(next())
+	base, step := base+100, 10
+	YFROM(next())
+	YIELD(base + step)
+	base, more := base*2, 1
+	YFROM(§count(base, more))
+	YFROM(next())
+	RETNIL
+}GENP
+func §E() { drv.Run[int](func() drv.It[int] { it := §gen(0); return it }) }
+`, "deleg:param-redeclared"),
+		Raw("deleg-for-post-reads-name-shadowed-by-const-or-type-of-the-body", `
+func §count(from, n int) ITER[int] GEN[int]{
+	for i := 0; i < n; i++ {
+		YIELD(from + i)
+	}
+	RETNIL
+}GEN
+func §gen() ITER[int] GEN[int]{
+	base := 10
+	for i := 0; i < 2; YFROM(§count(tr.V(1, base+i), 2)) {
+		i++
+		const base = 0
+		tr.U(base)
+	}
+	width := 15
+	for i := 0; i < 2; YFROM(§count(width+i, 1)) {
+		i++
+		type width struct{ w int }
+		tr.U(width{1})
+	}
+	for i := 0; i < 2; YFROM(§count(base+i, 1)) {
+		i++
+		var base = 5
+		tr.U(base)
+	}
+	RETNIL
+}GEN
+`+StdEntry, "deleg:in-for-post", "shadow"),
 		Raw("deleg-generic-and-method-generators", `
 type §box struct{ xs []int }
 
